@@ -145,3 +145,69 @@ pub fn panic_signature(p: &str) -> String {
     let out: String = out.chars().take(60).collect();
     format!("{file}: {out}")
 }
+
+// ---------------------------------------------------------------------------------------
+// watchdog: a call into the library that neither returns nor panics (endless loop, runaway
+// allocation) must not stall the check; the case in flight is reported as a failure
+
+use std::collections::HashMap;
+use std::sync::Mutex;
+use std::time::Instant;
+
+static INFLIGHT: Mutex<Option<HashMap<std::thread::ThreadId, (Instant, String)>>> = Mutex::new(None);
+
+/// note what the current thread is about to run (the replay line of the case)
+pub fn in_flight(desc: &str) {
+    let mut g = INFLIGHT.lock().unwrap();
+    g.get_or_insert_with(HashMap::new).insert(std::thread::current().id(), (Instant::now(), desc.to_string()));
+}
+
+pub fn done_flight() {
+    let mut g = INFLIGHT.lock().unwrap();
+    if let Some(m) = g.as_mut() {
+        m.remove(&std::thread::current().id());
+    }
+}
+
+fn rss_bytes() -> u64 {
+    std::fs::read_to_string("/proc/self/statm")
+        .ok()
+        .and_then(|s| s.split(' ').nth(1).and_then(|x| x.parse::<u64>().ok()))
+        .map(|pages| pages * 4096)
+        .unwrap_or(0)
+}
+
+/// starts the watchdog; `limit_s` = longest a single case may run, `out` = run directory
+pub fn start_watchdog(prop: String, tier: String, seed: u64, out: String, limit_s: u64) {
+    std::thread::spawn(move || loop {
+        std::thread::sleep(std::time::Duration::from_millis(1500));
+        let rss = rss_bytes();
+        let mut stuck: Vec<(f64, String)> = Vec::new();
+        {
+            let g = INFLIGHT.lock().unwrap();
+            if let Some(m) = g.as_ref() {
+                for (_, (t, d)) in m.iter() {
+                    let age = t.elapsed().as_secs_f64();
+                    if age > limit_s as f64 || rss > 20_000_000_000 {
+                        stuck.push((age, d.clone()));
+                    }
+                }
+            }
+        }
+        if stuck.is_empty() {
+            continue;
+        }
+        stuck.sort_by(|a, b| b.0.partial_cmp(&a.0).unwrap());
+        let (age, desc) = &stuck[0];
+        let _ = std::fs::create_dir_all(&out);
+        let esc = |s: &str| s.replace('\\', "\\\\").replace('"', "\\\"").replace('\n', "\\n");
+        let j = format!(
+            "{{\n \"property\": \"{prop}\", \"tier\": \"{tier}\", \"seed\": {seed},\n \"evaluations\": 1, \"distinct_nontrivial\": 0, \"rule\": \"run aborted by the watchdog\", \"requests\": 0,\n \"distribution\": {{}}, \"samples\": [],\n \"failures\": [\n  {{\"kind\": \"oracle\", \"signature\": \"hang-or-runaway-allocation\", \"count\": {}, \"detail\": \"a library call did not return within {limit_s} s or the process grew past 20 GB (running for {:.0} s, resident {} MB); the case in flight is the replay\", \"replay\": \"{}\"}}\n ]\n}}\n",
+            stuck.len(), age, rss / 1_000_000, esc(desc)
+        );
+        let _ = std::fs::write(format!("{out}/summary.json"), j);
+        let _ = std::fs::write(format!("{out}/requests.txt"), "");
+        let _ = std::fs::write(format!("{out}/impl.txt"), "");
+        std::process::exit(0);
+    });
+}
